@@ -564,14 +564,17 @@ func run(input string) string {
 		}
 		return o
 	}
-	limit, onLimit := caseTimeout, "HANG"
+	limit := caseTimeout
 	if mode == "nconc" {
-		// the controller finds a deadlock by itself (every caller waits for a lock and stays so: HANG); running out of
-		// time on top of that is slowness of the machine: inconclusive
-		limit, onLimit = workerCaseTimeout, "TIMEOUT"
+		limit = workerCaseTimeout
 	}
+	// When the limit expires the harness LOOKS whether the case is deadlocked (hangwatch.go): goroutines of the case that
+	// wait for a lock / a once of the code under test, none of them running, the same picture for three seconds: HANG.
+	// A case that is merely slow (a loaded machine) is waited for; a minute without a decision is TIMEOUT = inconclusive.
 	done := make(chan string, 1)
+	gidc := make(chan int64, 1)
 	go func() {
+		gidc <- goid()
 		defer func() {
 			if r := recover(); r != nil {
 				done <- "PANIC " + drv.Clean(fmt.Sprint(r))
@@ -579,15 +582,15 @@ func run(input string) string {
 		}()
 		done <- runMode(input)
 	}()
-	select {
-	case o := <-done:
+	root := <-gidc
+	o, why := hwAwait(done, limit, func() []int64 { return []int64{root} })
+	if why == "" {
 		return o
-	case <-time.After(limit):
-		if onLimit == "HANG" {
-			hangs.Add(1)
-		}
-		return onLimit
 	}
+	if why == "HANG" {
+		hangs.Add(1)
+	}
+	return why
 }
 
 func main() {
